@@ -8,6 +8,9 @@ event = ['sub', pid, 'plain', x] | ['sub', pid, 'list', [x..]] | ['sub', pid, 'i
       | ['py', pid, x] | ['pf', pid] | ['pe', pid]            scripted yield / failure / end of an async producer
       | ['adv', dt] | ['wait', w, cancel] | ['ok'] | ['fail'] | ['shutdown']
       | ['fclear'] | ['fput', pid, kind...] | ['okfclear']     foreign-thread halves of _put
+      | ['fputl', pid, kind...]                like 'fput', but the foreign thread runs an event loop of its own and
+                                               submits from inside a coroutine on it; unmatched (no pending first half)
+                                               it is a whole ungated submission through the public API (model: FClear ; FPut)
       | ['subwait', pid, w, cancel, kind...]   submit and `await wait(cancel=..)` in ONE step of one task, with no
                                                loop iteration in between (model: Submit pid kind ; Wait w cancel)
       | ['fputwait', pid, w, cancel, kind...]  second half of a foreign submission immediately followed, in the same
@@ -90,6 +93,38 @@ def _pool_threads_alive():
     return any(t.name.startswith('ThreadPoolExecutor') for t in threading.enumerate())
 
 
+def in_own_loop(thunk):
+    """run thunk from inside a coroutine on an event loop owned by the calling (foreign) thread"""
+    def run():
+        lp = asyncio.new_event_loop()
+        try:
+            async def co():
+                thunk()
+            lp.run_until_complete(co())
+        finally:
+            lp.close()
+    return run
+
+
+def match_foreign(evs):
+    """pair every foreign first half ('fclear' / 'okfclear') with the next unused second half
+    ('fput' / 'fputl' / 'fputwait', fresh pid) in FIFO order, up to the first shutdown;
+    returns {index of first half: (index, event) of second half}"""
+    used_pids, open_firsts, m = set(), [], {}
+    for i, e in enumerate(evs):
+        if e[0] in ('sub', 'subwait'):
+            used_pids.add(e[1])
+        elif e[0] in ('fclear', 'okfclear'):
+            open_firsts.append(i)
+        elif e[0] in ('fput', 'fputl', 'fputwait'):
+            if e[1] not in used_pids and open_firsts:
+                m[open_firsts.pop(0)] = (i, e)
+            used_pids.add(e[1])
+        elif e[0] == 'shutdown':
+            break
+    return m
+
+
 class _ForeignPut:
     """One foreign thread going through BufferAsyncCalls._put, parked before each gated operation."""
 
@@ -161,6 +196,13 @@ class _ForeignPut:
             self.thread.join()
         return op
 
+    def drain(self):
+        """an ungated thread: wait until it has ended"""
+        while not self.ended:
+            if self.reached.get() == 'end':
+                self.ended = True
+                self.thread.join()
+
     def finish(self):
         if self.wid is not None and self.nops >= 2:
             return              # a waiter: ends when its wait() does (see abandon)
@@ -231,6 +273,8 @@ class Run:
         self.shut = False
         self.wtasks = {}
         self.fputs = []         # foreign threads going through _put
+        self.unsafe_calls = 0   # plain call_soon() on the owning loop from a foreign thread
+        self.fsecond = set()
         self.fmatch = {}        # script index of a 'fclear'/'okfclear' -> (script index, event) of the matching 'fput'
         self.fthread = {}       # script index of a 'fput' -> the thread parked before its second operation
         self.idx = -1
@@ -428,7 +472,7 @@ class Run:
                     sim.obs('werr', w)
                 else:
                     sim.obs('wret', w, sim.ticks(), self.nok)
-        elif k == 'fput':
+        elif k in ('fput', 'fputl'):
             fp = self.fthread.pop(self.idx, None)
             if fp is not None:
                 # second half of a foreign thread that is parked inside _put
@@ -438,8 +482,17 @@ class Run:
             if ev[1] in self.seen:
                 return
             self.seen.add(ev[1])
+            if k == 'fputl' and self.idx not in self.fsecond:
+                # a whole submission through the public API, from a coroutine on the foreign thread's own loop
+                fp = _ForeignPut(in_own_loop(self.make_producer(ev)[0]))
+                fp.nops = 2
+                self.fputs.append(fp)
+                fp.thread.start()
+                fp.drain()
+                return
             it = self.make_producer(ev)[1]()
-            self._foreign(lambda: self._real_loop.call_soon_threadsafe(b.q.put_nowait, it))
+            put = lambda: self._real_loop.call_soon_threadsafe(b.q.put_nowait, it)
+            self._foreign(in_own_loop(put) if k == 'fputl' else put)
         elif k == 'shutdown':
             self.shut = True
             # what asyncio.runners._cancel_all_tasks(loop) does, in creation order
@@ -465,6 +518,8 @@ class Run:
             fp = _ForeignPut(None)
             fp.wid = pev[2]
             fp.thread = threading.Thread(target=self._waiter_body(fp, submit, pev[2], bool(pev[3])), name='foreign-put')
+        elif pev[0] == 'fputl':
+            fp = _ForeignPut(in_own_loop(self.make_producer(pev)[0]))
         else:
             fp = _ForeignPut(self.make_producer(pev)[0])
         self.fputs.append(fp)
@@ -525,21 +580,22 @@ class Run:
         if shut_at is not None:
             script.append(('adv', self.SHUTDOWN_TAIL * self.T + 3))
         self.seen = set()
-        # pair every foreign first half with the next unused 'fput' (FIFO), unique fresh pids only
-        used_pids = set()
-        open_firsts = []
-        for i, e in enumerate(script[:n_applied]):
-            if e[0] in ('sub', 'subwait'):
-                used_pids.add(e[1])
-            elif e[0] in ('fclear', 'okfclear'):
-                open_firsts.append(i)
-            elif e[0] in ('fput', 'fputwait'):
-                if e[1] not in used_pids and open_firsts:
-                    self.fmatch[open_firsts.pop(0)] = (i, e)
-                used_pids.add(e[1])
+        self.fmatch = match_foreign(script[:n_applied])
+        self.fsecond = {j for j, _ in self.fmatch.values()}
 
         def before():
             loop = sim.loop
+            # a real loop asleep in select() is not woken by a plain call_soon() made from another
+            # thread (only call_soon_threadsafe writes to the self-pipe): such a callback is never run
+            owner = threading.get_ident()
+            plain_call_soon = loop.call_soon
+
+            def call_soon(cb, *a, context=None):
+                if threading.get_ident() != owner:
+                    self.unsafe_calls += 1
+                    return asyncio.Handle(cb, a, loop, context)
+                return plain_call_soon(cb, *a, context=context)
+            loop.call_soon = call_soon
 
             def factory(lp, coro, **kw):
                 t = asyncio.Task(coro, loop=lp, **kw)
@@ -719,9 +775,16 @@ def expand(evs, obs=None):
     """driver events -> model events (a 'subwait' is Submit ; Wait), observations re-aligned: the
     Submit half of a subwait shows nothing (the model never observes anything in a Submit step)"""
     out_e, out_o = [], []
+    second = {j for j, _ in match_foreign(evs).values()}
     for i, e in enumerate(evs):
         o = obs[i] if obs is not None and i < len(obs) else []
-        if e[0] in ('subwait', 'fputwait'):
+        if e[0] == 'fputl':
+            if i not in second:
+                out_e.append(['fclear'])
+                out_o.append([])
+            out_e.append(['fput'] + list(e[1:]))
+            out_o.append(o)
+        elif e[0] in ('subwait', 'fputwait'):
             out_e.append(['sub' if e[0] == 'subwait' else 'fput', e[1]] + list(e[4:]))
             out_o.append([])
             out_e.append(['wait', e[2], e[3]])
@@ -785,7 +848,7 @@ def settle_tail(T, evs):
     for e in evs:
         if e[0] == 'subwait':
             e = ['sub', e[1]] + list(e[4:])
-        if e[0] in ('sub', 'fput') and e[2] in ('aw', 'async') and e[1] not in open_:
+        if e[0] in ('sub', 'fput', 'fputl') and e[2] in ('aw', 'async') and e[1] not in open_:
             open_[e[1]] = e[2]
         elif e[0] == 'py' and open_.get(e[1]) == 'aw':
             open_[e[1]] = None
@@ -885,6 +948,8 @@ class Prog:
         elif ch in 'Bb':                     # buffer(x); await wait(cancel=..) with no loop iteration in between
             e = ['subwait', self.pid, self.wid, ch == 'B', 'plain', self.fresh()[0]]
             self.wid += 1
+        elif ch == 'n':                      # foreign submission from inside the foreign thread's own event loop
+            e = ['fputl', self.pid, 'plain', self.fresh()[0]]
         elif ch in 'UV':                     # second half of a foreign _put, then wait_from_anywhere() in that thread
             e = ['fputwait', self.pid, self.wid, ch == 'U', 'plain', self.fresh()[0]]
             self.wid += 1
@@ -898,7 +963,7 @@ class Prog:
             e = ['okfclear']
         else:
             raise ValueError(ch)
-        if e[0] in ('sub', 'fput', 'subwait', 'fputwait'):
+        if e[0] in ('sub', 'fput', 'fputl', 'subwait', 'fputwait'):
             self.pid += 1
         self.evs.append(e)
         return True
@@ -947,7 +1012,7 @@ def distribution(cases, obs):
              daemon_ended=0, hang=0, T8=0, T100=0, T1024=0, T_other=0, settled_tail=0)
     keymap = {'py': 'pyield', 'pf': 'pfail', 'pe': 'pend', 'adv': 'advance', 'ok': 'fnok', 'fail': 'fnfail',
               'shutdown': 'shutdown', 'fclear': 'foreign', 'fput': 'foreign', 'okfclear': 'foreign',
-              'fputwait': 'foreign'}
+              'fputwait': 'foreign', 'fputl': 'foreign'}
     for c, o in zip(cases, obs):
         d[{8: 'T8', 100: 'T100', 1024: 'T1024'}.get(c['T'], 'T_other')] += 1
         evs = c['evs']
